@@ -565,3 +565,89 @@ def run(ctx):
     ctx.guard(c11.r11_4)
     from . import c13
     ctx.guard(c13.r13_1)      # no state kept on the adjoint SDE / adjoint solver between evaluations
+
+
+# ------------------------------------------------------------------------------------------------ R09.8
+class _TimeAxis(Obj):
+    """The output times as an opaque vector: indexable, and usable in the element-wise arithmetic of the entry points'
+    sanity checks (whose results only feed warnings)."""
+
+    def __init__(self):
+        super().__init__("ts", getitem_hook=lambda i, o, idx, n, f: nf.sym(f"ts[{idx}]", True))
+
+    def sim_binop(self, op, l, r):
+        return nf.sym("ts-arithmetic")
+
+
+def r09_8(ctx):
+    """Everything the entry points compute from the SDE before / around the solve is recorded by autograd whenever the
+    caller has autograd on -- whether or not y0 requires grad.
+
+    For reversible Heun the initial solver state (f(t0, y0), g(t0, y0), y0) is computed by sdeint_adjoint *outside* the
+    autograd Function; the backward pass hands back cotangents for it and only the ordinary autograd graph of that one
+    evaluation carries them into the parameters.  Computing it under no_grad, or under set_grad_enabled(<something that
+    is false for a constant y0>), silently drops that contribution: y0 a constant is the usual training set-up."""
+    rep, model = ctx.rep, ctx.model
+    rep.rule("R09.8", "sdeint / sdeint_adjoint make their solver calls (init_extra_solver_state, integrate, Function.apply) "
+                      "in the caller's autograd mode: no grad-mode context that is off (or undecidable) for some input")
+    for which in (("torchsde/_core/sdeint.py", "sdeint"), (ADJOINT, "sdeint_adjoint")):
+        fi_b = model.func(*which)
+        rep.analysed(fi_b)
+        for y0_grad in (True, False):
+            seen = []
+
+            class H(SdeintHooks):
+                def _record(self, what):
+                    off = [(t, v) for t, v in self.interp.grad_stack if v is False or v == "unknown"]
+                    seen.append((what, off))
+
+                def _solver_fn(self, it, a, k, n, f):
+                    so = SdeintHooks._solver_fn(self, it, a, k, n, f)
+                    for name in ("init_extra_solver_state", "integrate"):
+                        inner = so.attrs[name]
+                        so.attrs[name] = Intrinsic(name, (lambda inner, name: lambda it2, a2, k2, n2, f2: (
+                            self._record(name), inner.fn(it2, a2, k2, n2, f2))[1])(inner, name))
+                    return so
+
+                def external_call(self, interp, dotted, args, kwargs, node, fi):
+                    if dotted.endswith("_SdeintAdjointMethod.apply"):
+                        self._record("_SdeintAdjointMethod.apply")
+                    if dotted == "torch.is_grad_enabled":
+                        return True
+                    return SdeintHooks.external_call(self, interp, dotted, args, kwargs, node, fi)
+
+                def tensor_attr(self, interp, recv, name, node, fi):
+                    if name == "requires_grad":
+                        return y0_grad
+                    return SdeintHooks.tensor_attr(self, interp, recv, name, node, fi)
+            hooks = H()
+            it = Interp(model, hooks)
+            hooks.interp = it
+            ts = _TimeAxis()
+            kw = dict(sde=Obj("user-sde", attrs={"__is_module__": True}), y0=nf.sym("y0"), ts=ts, bm=Obj("bm"),
+                      method="reversible_heun", dt=nf.sym("dt", True), adaptive=False, rtol=nf.sym("rtol", True),
+                      atol=nf.sym("atol", True), dt_min=nf.sym("dt_min", True), options=None, names=None, logqp=False,
+                      extra=True, extra_solver_state=None)
+            if which[1] == "sdeint_adjoint":
+                kw.update(adjoint_method=None, adjoint_adaptive=False, adjoint_rtol=nf.sym("adjoint_rtol", True),
+                          adjoint_atol=nf.sym("adjoint_atol", True), adjoint_options=None, adjoint_params=None)
+            it.call_function(fi_b, [], kw)
+            if not seen:
+                raise AnalysisError(f"{which[1]} makes no solver call in the abstract run", where=astq.loc(fi_b))
+            for what, off in seen:
+                rep.check(not off, "R09.8", astq.loc(fi_b),
+                          f"{fi_b.key}::R09.8::{what}::y0.requires_grad={y0_grad}",
+                          f"{which[1]} calls {what} inside `{off[0][0] if off else ''}`, which switches autograd recording "
+                          f"{'off' if off and off[0][1] is False else 'to something this scenario cannot decide'} when the caller "
+                          f"has it on and y0.requires_grad is {y0_grad}: what is computed there carries no graph, so the "
+                          f"cotangents the backward pass returns for it never reach the parameters (silently incomplete "
+                          f"parameter gradients; forward values unchanged)", "made in the caller's autograd mode")
+    ctx.floor("R09.8", 6)
+
+
+_run_c09h = run
+
+
+def run(ctx):
+    _run_c09h(ctx)
+    ctx.guard(r09_8)
